@@ -32,7 +32,7 @@ func TestVerifC16BridgeStartRace(t *testing.T) {
 	run.Floor("start_returned", 100)
 	scope := []string{"tunnox-core/internal/protocol/session/tunnel", "tunnox-core/internal/stream"}
 	batch := 250
-	for done := 0; done < n && run.Violations() < 20; done += batch {
+	for done := 0; done < n && run.Violations() < 20 && run.Counter("leak_violations") < 3; done += batch {
 		snap := vk.SnapshotGoroutines()
 		type rec struct {
 			tc   *c16TunnelConn
@@ -85,9 +85,10 @@ func TestVerifC16BridgeStartRace(t *testing.T) {
 		for _, f := range cleanup {
 			f()
 		}
-		if l := snap.Leaked(scope, nil, 7*time.Second); len(l) > 0 {
+		if l := snap.Leaked(scope, nil, 2*time.Second); len(l) > 0 {
 			sum := vk.FrameSummary(l)
-			run.Violation("C16:bridge|close-during-start|goroutine-left|"+sum[0], map[string]any{"batch_start": done, "leaked": len(l), "frames": sum, "stack": l[0].Stack})
+			run.Violation("C16:bridge|close-during-start|goroutine-left|"+c16LeakFn(sum[0]), map[string]any{"batch_start": done, "leaked": len(l), "frames": sum, "stack": l[0].Stack})
+			run.Count("leak_violations", 1) // after 3 the test stops: every further trial would wait the full poll interval
 		}
 		run.Count("leak_checks", 1)
 		for _, rc := range recs {
